@@ -3,7 +3,7 @@ import Hertz.Model.ArgsProg
 /-!
 The remaining mutators of `pkg/protocol/uri.go` as programs over ONE `URI` object: `Parse`, `SetScheme/SetHost/SetPath/SetHash`,
 `SetQueryString`, `SetUsername/SetPassword`, mutation through `QueryArgs()`, `Update/UpdateBytes`, `Reset`.
-Extends `Model/Uri.lean` (unchanged; `parse`, `URI.requestURI`, `URI.fullURI` are used as they are).
+Extends `Model/Uri.lean` (`parse` is used as it is; `FullURI()` of a state is `URI.fullURIp` with the state's flag and list).
 
 State of the object = the `URI` record + the two fields behind `QueryArgs()`: the visible entries of `queryArgs` and the flag
 `parsedQueryArgs`.
@@ -12,9 +12,13 @@ What the Go code does (uri.go), stated exactly:
 * user-info: `parse` cuts `user[:password]@` off the front of the host (first `@`, then first `:` inside) into
   `username`/`password`; the setters only store bytes; NOTHING writes them: `appendSchemeHost` is `Scheme() :// Host()`.
   So user-info never reaches `FullURI()` and a re-parse has none.
-* `RequestURI()` writes `?` + `queryArgs.AppendBytes` when `queryArgs.Len() > 0` - WITHOUT looking at `parsedQueryArgs` -
-  and otherwise `?` + `queryString` when that is non-empty.  `SetQueryString` stores the string and clears only the flag; a
-  mutation through `QueryArgs()` never touches `queryString`.  Hence the two stale-query situations (`UState.staleQuery`).
+* `RequestURI()` (since /repo 97b0e80) chooses by `parsedQueryArgs`: flag set → `?` + `queryArgs.AppendBytes` when
+  `queryArgs.Len() > 0`, and NO query when the list is empty; flag clear → `?` + `queryString` when that is non-empty.
+  `SetQueryString` / `Update("?…")` store the string and clear only the flag (the old entries stay in `queryArgs`, unseen);
+  a mutation through `QueryArgs()` never touches `queryString` (it may be out of date, unseen while the flag is set).  So
+  the query written is always the query `QueryArgs()` reports.  Before that commit the choice was made by
+  `queryArgs.Len() > 0` alone and the two situations `UState.staleQuery` wrote a query the object did not report (former
+  known finding `C17-stale-query`; regression theorems `uri_stale_query_repaired` in `Props/C17.lean`).
 * `updateBytes(newURI)`: empty → nothing; contains `//` ANYWHERE → `Parse(nil, newURI)` (with `scheme ":"` prefixed - the raw
   field, possibly empty - when `//` is at position 0), the old scheme kept if the new one is empty; starts with `/` →
   `Parse(nil, Scheme()://Host() + newURI)`; `?…` → `SetQueryStringBytes` (everything after `?`, a `#` included); `#…` →
@@ -32,8 +36,8 @@ structure UState where
   parsed : Bool := false
 deriving Repr, DecidableEq
 
-/-- `URI.FullURI()` -/
-def UState.fullURI (st : UState) : Bytes := st.u.fullURI st.args
+/-- `URI.FullURI()`: the flag decides between the argument list and the raw query string -/
+def UState.fullURI (st : UState) : Bytes := st.u.fullURIp st.parsed st.args
 
 /-- `URI.parseQueryArgs()` (what `QueryArgs()` does first) -/
 def UState.parseQA (st : UState) : UState :=
@@ -101,9 +105,11 @@ def UState.step (st : UState) : UriOp → Option UState
 /-- run a program on a reset URI; `none` = a panic on the way -/
 def runUriOps (ops : List UriOp) : Option UState := ops.foldlM UState.step {}
 
-/-- The two situations in which `FullURI()` does not write the query the object reports (`QueryString()` / `QueryArgs()`):
-the arguments were used and then a new query string was set (`SetQueryString`, `Update("?…")`) - the OLD arguments are written;
-or the arguments were parsed and all deleted - the OLD query string is written. -/
+/-- The two situations in which flag and list disagree with the other field: the arguments were used and then a new query
+string was set (`SetQueryString`, `Update("?…")`) - old arguments are still in the list, flag clear; or the arguments were
+parsed and all deleted - the old query string is still there, flag set.  Before /repo 97b0e80 `FullURI()` wrote the OLD
+arguments resp. the OLD query string here; now it writes what `QueryArgs()` reports (`uri_program_roundtrip` holds in these
+states too).  No longer a finding class: used by the driver as a branch tag only (the states must keep being reached). -/
 def UState.staleQuery (st : UState) : Bool :=
   (!st.parsed && !st.args.isEmpty) || (st.parsed && st.args.isEmpty && !st.u.query.isEmpty)
 
